@@ -148,8 +148,9 @@ Example C01_stod_nonvacuous :
 Proof. exact MathProofs.pow_ok_example. Qed.
 Print Assumptions C01_stod_nonvacuous.
 
-(** Recursive unit reducers without a visited set (model: units.cpp updateUnitMultiplier): on an acyclic units graph
-    every reduction returns within fuel |env| ... *)
+(** Recursive unit reducers without a visited set (model: units.cpp updateUnitMultiplier, as it was before 85ba0d4 and as
+    the importer's checkUnitsForCycles / fetchUnits and transferUnitsRenamingIfRequired still are): on an acyclic units
+    graph every reduction returns within fuel |env| ... *)
 Theorem C01_reducers_terminate :
   forall is_std std_log env, acyclic is_std env ->
     forall n, update_unit_multiplier is_std std_log env (length env) n <> ROutOfFuel.
@@ -167,8 +168,14 @@ Example C01_reducers_nonvacuous :
 Proof. exact RedProofs.chain3_acyclic. Qed.
 Print Assumptions C01_reducers_nonvacuous.
 
-(** The repair fixes/C01-units-cycle-guard.diff (hasUnitsCycle consulted by the public entry points): with the guard the
-    modelled reducer returns on EVERY environment ... *)
+(** Commit 85ba0d4 (hasUnitsCycle consulted first): with the guard the modelled reducer returns on EVERY environment ...
+    GUARDED in /repo: Units::isDefined / isResolved / scalingFactor (hence compatible, equivalent) / requiresImports,
+    hasUnitsImports (Model::hasImports, Printer), referencedUnits (unitsUsed: Component::isDefined / isResolved,
+    Model::hasUnresolvedImports), validator unitsAreEquivalent (updateBaseUnitCount).
+    NOT guarded, and therefore still open findings of the pipeline run (known_findings.d/C01.json): the importer's own
+    recursions checkUnitsForCycles / fetchUnits over the LOCAL references of an imported file (C01-K3-importer-recursion-
+    unguarded) and transferUnitsRenamingIfRequired, whose renaming can itself close a cycle while flattening
+    (C01-K3-transfer-recursion).  The theorems below are about the guarded reducer only. *)
 Theorem C01_cycle_guard_terminates :
   forall is_std std_log env n, guarded_multiplier is_std std_log env n <> ROutOfFuel.
 Proof. exact RedProofs.cycle_guard_terminates. Qed.
